@@ -182,6 +182,8 @@ def run(ctx):
         [("ctype", v) for v in ("text/plain\r\nX-Injected: yes",
                                 "text/csv\nheader=1", "a/b\x00", "\t",
                                 "text/plain; x=\x7f")] + \
+        [("hdrmap", k, v) for k in ("proxy", "userdict", "chainmap")
+         for v in ("ok", "\u0159\u20ac", 3, None, b"x")] + \
         [("addheader", v) for v in ("image.png", "caf\u00e9.txt",
                                     "\u017elu\u0165ou\u010dk\u00fd.txt",
                                     "\u4e2d\u6587.pdf", 'q"uo\\te', "")]
@@ -198,6 +200,19 @@ def run(ctx):
             from poorwsgi.response import Response
             return rng.choice([("ok", prog[1]),
                                Response("ok", content_type=prog[1])])
+        if prog[0] == "hdrmap":
+            # headers handed over in a mapping that is not a dict
+            import collections
+            import types
+            from poorwsgi.response import Response, JSONResponse
+            data = {"X-M": prog[2], "X-Other": "1"}
+            hdrs = {"proxy": types.MappingProxyType(data),
+                    "userdict": collections.UserDict(data),
+                    "chainmap": collections.ChainMap({}, data)}[prog[1]]
+            return rng.choice([
+                lambda: Response("x", headers=hdrs),
+                lambda: JSONResponse(headers=hdrs, a=1),
+                lambda: ("x", "text/plain", hdrs)])()
         if prog[0] == "addheader":
             # header parameters given as keyword arguments
             from poorwsgi.response import Response
